@@ -219,6 +219,8 @@ class Interp:
                 "product": PyFunc(lambda *a, repeat=1: list(__import__("itertools").product(*[list(q) for q in a], repeat=repeat)), "product", True),
                 "chain": PyFunc(lambda *a: [y for q in a for y in q], "chain", True),
                 "combinations": PyFunc(lambda a, r: list(__import__("itertools").combinations(list(a), r)), "combinations", True)}),
+            "collections.Counter": PyFunc(lambda x=(): __import__("collections").Counter(x), "Counter"),
+            "dataclasses.fields": PyFunc(lambda o: [], "fields", True),
             "string": Obj("module:string", {"ascii_lowercase": "abcdefghijklmnopqrstuvwxyz",
                                             "ascii_uppercase": "ABCDEFGHIJKLMNOPQRSTUVWXYZ"}),
         }
@@ -619,6 +621,20 @@ class Interp:
             vals = dict(zip(fields, args))
             vals.update(kwargs)
             o.attrs.update(vals)
+            for st in cls.body:
+                if isinstance(st, ast.AnnAssign) and isinstance(st.target, ast.Name) and st.target.id not in o.attrs \
+                        and isinstance(st.value, ast.Call):
+                    for kw in st.value.keywords:
+                        if kw.arg == "default_factory" and un(kw.value) in ("dict", "list", "tuple"):
+                            o.attrs[st.target.id] = {"dict": dict, "list": list, "tuple": tuple}[un(kw.value)]()
+                        elif kw.arg == "default":
+                            try:
+                                o.attrs[st.target.id] = ast.literal_eval(kw.value)
+                            except Exception:
+                                pass
+            post = self._class_def(name, "__post_init__")
+            if isinstance(post, ast.FunctionDef):
+                self.call_function(post, [o], {}, {}, qual.split(".")[0])
         return o
 
     def _namedtuple_fields(self, name):
